@@ -45,6 +45,11 @@ def gen_dist(d, f, nonrand, zero_ok=True, disjoint=False):
             st = d.choice(["rng", "list", "tuple"])
             if st != "rng":
                 item.append(st)
+        if disjoint == "carve" and (vals & used) and zero_ok:
+            # an entry that overlaps an earlier one is given the literal weight 0: its values are carved out of the
+            # weighted entries that contain them (overlapping entries with two positive weights stay ungenerated)
+            entries.append([item, ["lit", 0]])
+            continue
         if disjoint and (vals & used):
             continue
         used |= vals
@@ -56,7 +61,7 @@ def gen_dist(d, f, nonrand, zero_ok=True, disjoint=False):
     if not entries:
         entries.append([["lit", lo], ["lit", 1]])
     # make the interesting class common: a zero weight next to unequal positive weights
-    if zero_ok and len(entries) >= 2 and d.chance(40):
+    if zero_ok and len(entries) >= 2 and d.chance(40) and disjoint != "carve":
         entries[d.randint(0, len(entries) - 1)][1] = ["lit", 0]
         if all(e[1] == ["lit", 0] for e in entries):
             entries[0][1] = ["lit", 2]
@@ -90,7 +95,9 @@ def hard_cases(d):
     nonrand = [f for f in fs if not f["rand"] and f["kind"] == "bit"]
     for f in nonrand:
         f["init"] = f["init"] % 4
-    dist = gen_dist(d, tgt, nonrand, disjoint=True)   # overlapping entries with different weights are ambiguous
+    # overlapping entries with two different positive weights are ambiguous; a zero-weight entry inside a weighted range
+    # is not: half of the programs may carve values out that way
+    dist = gen_dist(d, tgt, nonrand, disjoint="carve" if d.chance(50) else True)
     env0 = {f["name"]: f["init"] for f in fs}
     if total_weight(dist, env0) <= 0:
         dist[2][0][1] = ["lit", 2]
